@@ -3,6 +3,9 @@ import TdVerif.Gen.PyFuns
 import TdVerif.Model.SliceSpec
 import TdVerif.Model.Key
 import TdVerif.Model.Compile
+import TdVerif.Model.InferSize
+import TdVerif.Model.CheckKeys
+import TdVerif.Model.ParseTo
 
 namespace TdVerif.Drive
 open TdVerif Sexp
@@ -38,6 +41,56 @@ def bsSpelling? (kind : String) (l : List Int) : Option Compile.BsSpelling :=
   | "other", _ => some .other
   | _, _ => none
 
+def keysArg? (kind : String) (ks : List Sexp) : Option Key.KeysArg :=
+  match kind with
+  | "list" => (ks.mapM keyOfSexp).map .list
+  | "tuple" => (ks.mapM keyOfSexp).map .tuple
+  | "other" => some .other
+  | _ => none
+
+def keyOutsToSexp : Option (List Key.KeyOut) → Sexp
+  | some l => tagged "ok" (l.map keyOutToSexp)
+  | none => .atom "err"
+
+def optKeyOutToSexp : Option Key.KeyOut → Sexp
+  | some r => keyOutToSexp r
+  | none => .atom "err"
+
+def checkOutToSexp : CheckKeys.Out → Sexp
+  | .keys l => tagged "keys" (l.map .atom)
+  | .set l => tagged "set" (l.map .atom)
+  | .keyError => .atom "KeyError"
+
+def ptVal? : Sexp → Option ParseTo.Val
+  | .atom "none" => some .none
+  | .atom "badstr" => some .badDevStr
+  | .list [.atom "num", t] => (asNat? t).map .pyNum
+  | .atom "other" => some .other
+  | .list [.atom "dev", d] => (asNat? d).map .dev
+  | .list [.atom "dtype", t] => (asNat? t).map .dtype
+  | .list [.atom "tensor", d, t] => do pure (.tensor (← asNat? d) (← asNat? t))
+  | .list [.atom "bool", .atom b] => some (.pyBool (b == "true"))
+  | .list [.atom "int", i] => (asNat? i).map .pyInt
+  | .list [.atom "memfmt", m] => (asNat? m).map .memfmt
+  | _ => none
+
+def ptKw? : Sexp → Option (String × ParseTo.Val)
+  | .list [.atom k, v] => (ptVal? v).map (fun x => (k, x))
+  | _ => none
+
+def optNatToSexp : Option Nat → Sexp
+  | some n => ofNat n
+  | none => .atom "none"
+
+def ptResToSexp : ParseTo.Res → Sexp
+  | .ok d t nb mf => tagged "ok" [optNatToSexp d, optNatToSexp t, .atom (if nb then "true" else "false"), optNatToSexp mf]
+  | .typeError => .atom "TypeError"
+  | .runtimeError => .atom "RuntimeError"
+
+def intsResToSexp : Except String (List Int) → Sexp
+  | .ok l => tagged "ok" [ofInts l]
+  | .error e => tagged "err" [.atom e]
+
 def handleC18 (cmd : String) (args : List Sexp) : Option Sexp :=
   match cmd, args with
   | "c18.slice_py", [a, b, c, l] => do
@@ -58,6 +111,42 @@ def handleC18 (cmd : String) (args : List Sexp) : Option Sexp :=
       let ks ← ks.mapM asAtom?; let vs ← ints? vs; let sk ← sk.mapM asAtom?
       pure (.list [optIntsToSexp (Compile.valuesDict ks vs sk), optIntsToSexp (Compile.valuesIndex ks vs sk),
                    optIntsToSexp (Compile.itemsDict ks vs sk), optIntsToSexp (Compile.itemsIndex ks vs sk)])
+  -- (c18.infer_size (shape…) numel) → (eager-copy compile-copy hand-model decision-table)
+  | "c18.infer_size", [.list shape, n] => do
+      let shape ← ints? shape; let n ← asInt? n
+      pure (.list [intsResToSexp (Gen.inferSizeImpl shape n), intsResToSexp (Gen.inferSizeImplLocal shape n),
+                   intsResToSexp (InferSize.infer shape n), intsResToSexp (InferSize.closedForm shape n)])
+  -- (c18.keylist list|tuple|other k…) → (cpp-call python-call)
+  | "c18.keylist", (.atom kind :: ks) => do
+      let a ← keysArg? kind ks
+      pure (.list [keyOutsToSexp (Key.unravelKeyListCppCall a), keyOutsToSexp (Key.unravelKeyListPyCall a)])
+  -- (c18.keys k…) : unravel_keys(*args) → (cpp-call python-call)
+  | "c18.keys", ks => do
+      let ks ← ks.mapM keyOfSexp
+      pure (.list [optKeyOutToSexp (Key.unravelKeysCppCall ks), optKeyOutToSexp (Key.unravelKeysPyCall ks)])
+  -- (c18.keyspec k) → (valid leaves…) : the specification vocabulary of the theorems
+  | "c18.keyspec", [k] => do
+      let k ← keyOfSexp k
+      pure (.list [.atom (if Key.validB k then "valid" else "invalid"), strsToSexp (Key.leaves k)])
+  -- (c18.check_keys strict|loose (k…) (k…) …) → (eager-branch compile-branch)
+  | "c18.check_keys", (.atom mode :: tds) => do
+      let tds ← tds.mapM (fun t => do let l ← asList? t; l.mapM asAtom?)
+      let strict := mode == "strict"
+      pure (.list [checkOutToSexp (CheckKeys.checkKeysEager tds strict), checkOutToSexp (CheckKeys.checkKeysCompile tds strict)])
+  -- (c18.neg_dim dim (shape…) ndim|none) → (ok r) | (err IndexError)
+  | "c18.neg_dim", [d, .list shape, n] => do
+      let d ← asInt? d; let shape ← ints? shape; let n ← asOptInt? n
+      pure (match Gen.maybeCorrectNegDim d shape n with
+        | .ok r => tagged "ok" [ofInt r]
+        | .error e => tagged "err" [.atom e])
+  -- (c18.parse_to (pos…) ((kw val)…)) → result of the Python twin (= first-fit over the three signatures)
+  | "c18.parse_to", [.list pos, .list kw] => do
+      let pos ← pos.mapM ptVal?; let kw ← kw.mapM ptKw?
+      pure (ptResToSexp (ParseTo.parseToPy ⟨pos, kw⟩))
+  -- (c18.seq_keys (out…) (keys…)) → ((eager…) (compile…))
+  | "c18.seq_keys", [.list o, .list k] => do
+      let o ← o.mapM asAtom?; let k ← k.mapM asAtom?
+      pure (.list [strsToSexp (CheckKeys.seqKeysEager o k), strsToSexp (CheckKeys.seqKeysCompile o k)])
   | _, _ => none
 
 end TdVerif.Drive
